@@ -5,7 +5,7 @@
 # Writes /tmp/mut/<ID>-out/<A|B>.confirm.txt
 set -u
 id="$1"; v="$2"
-out=/tmp/mut/$id-out; wt=/tmp/confirm/$id-$v
+base=${MUT_BASE:-/tmp/mut}; out=$base/$id-out; wt=/tmp/confirm/$id-$v
 patch=$out/$v.patch.diff
 demo=$(ls $out/$v.demo.* 2>/dev/null | head -1)
 log=$out/$v.confirm.txt
